@@ -707,7 +707,9 @@ Varable failures: {var_failed}
             self.NVARS = len(varlist)
 
         newdimlen = max(self.NVARS, 1)
-        if 'VAR' in self.dimensions:
+        if not update:
+            pass
+        elif 'VAR' in self.dimensions:
             if newdimlen != len(self.dimensions['VAR']):
                 try:
                     self.createDimension('VAR', newdimlen)
